@@ -64,7 +64,7 @@ def cnormal(rng, shape):
 
 
 # ----------------------------------------------------------------------------- memory layouts of caller arrays
-MEMORY_KINDS = ('c', 'f', 'lead-permuted', 'strided', 'readonly', 'reversed')
+MEMORY_KINDS = ('c', 'f', 'lead-permuted', 'last2-transposed', 'strided', 'readonly', 'reversed')
 
 
 def relayout(a, how):
@@ -80,6 +80,12 @@ def relayout(a, how):
             return np.ascontiguousarray(a)
         # stored with the first two axes exchanged, presented in the original axis order (a transposed view)
         return np.swapaxes(np.ascontiguousarray(np.swapaxes(a, 0, 1)), 0, 1)
+    if how == 'last2-transposed':
+        if a.ndim < 2:
+            return np.ascontiguousarray(a)
+        # every trailing matrix stored column-major (e.g. what `x.conj().swapaxes(-1, -2)` hands on): Fortran-contiguous
+        # per-matrix slices, which LAPACK wrappers use without a copy
+        return np.swapaxes(np.ascontiguousarray(np.swapaxes(a, -1, -2)), -1, -2)
     if how == 'strided':
         big = np.zeros(a.shape[:-1] + (2 * a.shape[-1] + 1,), dtype=a.dtype)
         big[..., 1::2] = a
